@@ -13,7 +13,7 @@ CHECKS = {
             "tree widths/levels of the case list; real engines, cma and scipy run on concrete numbers (one seed per case); nfev bookkeeping of scipy is trusted as reported"),
     "C04": ("Tree/deme best versus a brute-force scan of every history after every metaepoch of bounded real runs under every schedule of local-stop verdicts; "
             "ordering laws of Individual/worse_than on symbolic float64 fitness; selection never drops the best evaluated offspring (symbolic populations).",
-            "bounded run length and tree width; budget-prefix clause (two whole runs) is outside the claim"),
+            "bounded run length and tree width; budget-prefix clause decided for one seed and all budget pairs N1 < N2 <= 40 (thorough 100) of minimize()"),
     "C05": ("One real run_step from an arbitrary flag state with symbolic (monotone) stop verdicts: counter +1, no sprouting once the condition was seen true, "
             "<= 1 engine iteration per deme after the first 'true'; real run() with symbolic / shipped conditions returns exactly at the first true loop-head verdict.",
             "monotone stop conditions; tree widths of the case list"),
@@ -61,7 +61,7 @@ CHECKS.update({
             "profile real; candidate sets within the stated sizes"),
     "C13": ("Twin execution of the same real component on (f, maximize) and (-f, minimize) inside one path exploration: ordering, max/sorted, topk, tournament, (mu+k) selection, "
             "DE replacement, NBC, DemeLimit, LevelLimit, BestPerDeme, best-individual queries, R5S, and the values handed to cma.tell / scipy.minimize are identical.",
-            "profile real; n 3-4 (R5S 6); distinct fitness where numpy's argsort tie order would matter; whole-run twin clause outside"),
+            "profile real; n 3-4 (R5S 6); distinct fitness where numpy's argsort tie order would matter; whole-run twin clause decided for the listed engine mixes (DE/SHADE/CMA/local/LHS/Sobol), 3-5 metaepochs, one seed, under every shared schedule of local-stop verdicts"),
     "C15": ("Real NearestBetterClustering on symbolic populations (genomes, fitness with ties, factor, truncation, direction) against the relational definition: truncation keeps the best, "
             "every recorded distance is the distance to the nearest strictly better individual (tied-with-best -> best), result = best + {d_i > factor*mean}; "
             "permutation / translation / scaling invariance; node-id collisions hunted on real float64 arrays closer than the printed precision.",
